@@ -1027,7 +1027,12 @@ def run(chk, replay):
         "month / weekday names are lower-cased as ASCII",
         "a DAG is identified by its file (id = base name without extension) — in the suspend flags, the status script and the recorded calls — never by `name:`",
         "schedule maps carry at most one malformed entry (Go's map iteration order decides which one is seen first otherwise)"]
-    common.lean_obligations(chk, "BdModel/Props/C09.lean", TIE)
+    common.lean_obligations(chk, "BdModel/Props/C09.lean", dict(TIE, Hist=None))
+    import hist as _hist
+    if replay and "hist_case" in json.load(open(replay)).get("case", {}):
+        _hist.replay_big_record(chk, "C09", "the daemon's start guard reads the latest run (status, start time) from the store", json.load(open(replay))["case"]["hist_case"]); return
+    if not replay:
+        _hist.big_record_leg(chk, "C09", "the daemon's start guard reads the latest run (status, start time) from the store")
     binp, out = common.build_harness("cron")
     if not binp:
         chk.oblige("harness-build:cron", False, out[-3000:]); return
